@@ -20,8 +20,9 @@ type Spec struct {
 
 type Pkg struct {
 	Name  string  `json:"name"`
-	Path  string  `json:"path"`  // import path
-	Files []*File `json:"files"` // root: Files[0] is the analysed file "defs.go"
+	Path  string  `json:"path"`          // import path
+	Mod   string  `json:"mod,omitempty"` // module path when it is not Module (same value on every package of a Spec)
+	Files []*File `json:"files"`         // root: Files[0] is the analysed file "defs.go"
 }
 
 type File struct {
@@ -135,7 +136,21 @@ func Ptr(e *TypeRef) *TypeRef              { return &TypeRef{K: TPtr, Elem: e} }
 func Std(importPath, name string) *TypeRef { return &TypeRef{K: TStd, Pkg: importPath, Name: name} }
 func (s *Spec) Root() *Pkg                 { return s.Pkgs[0] }
 func (s *Spec) AnalysedFile() *File        { return s.Pkgs[0].Files[0] }
-func (p *Pkg) Dir() string                 { return strings.TrimPrefix(strings.TrimPrefix(p.Path, Module), "/") }
+func (p *Pkg) Dir() string {
+	mod := Module
+	if p.Mod != "" {
+		mod = p.Mod
+	}
+	return strings.TrimPrefix(strings.TrimPrefix(p.Path, mod), "/")
+}
+
+// ModulePath is the module the program lives in.
+func (s *Spec) ModulePath() string {
+	if s.Pkgs[0].Mod != "" {
+		return s.Pkgs[0].Mod
+	}
+	return Module
+}
 func (s *Spec) PkgByPath(path string) *Pkg {
 	for _, p := range s.Pkgs {
 		if p.Path == path {
@@ -159,6 +174,24 @@ func (s *Spec) FindDecl(pkgPath, name string) *Decl {
 		}
 	}
 	return nil
+}
+
+// qualifier is the name a file uses for the imported package: its package name, or an alias when an
+// earlier package of the program has the same name.
+func (s *Spec) qualifier(path string) string {
+	pk := s.PkgByPath(path)
+	if pk == nil {
+		return lastElem(path)
+	}
+	for i, p := range s.Pkgs {
+		if p == pk {
+			break
+		}
+		if p.Name == pk.Name {
+			return fmt.Sprintf("%s%d", pk.Name, i+1)
+		}
+	}
+	return pk.Name
 }
 
 func lastElem(path string) string {
@@ -185,12 +218,7 @@ func (rc *renderCtx) typeStr(t *TypeRef) string {
 		name := t.Name
 		if t.Pkg != "" && t.Pkg != rc.pkg.Path {
 			rc.imports[t.Pkg] = true
-			pk := rc.spec.PkgByPath(t.Pkg)
-			q := lastElem(t.Pkg)
-			if pk != nil {
-				q = pk.Name
-			}
-			name = q + "." + name
+			name = rc.spec.qualifier(t.Pkg) + "." + name
 		}
 		if len(t.Args) > 0 {
 			args := make([]string, len(t.Args))
@@ -383,9 +411,8 @@ func (t *%[1]s) UnmarshalJSON(b []byte) error {
 		sort.Strings(imps)
 		sb.WriteString("import (\n")
 		for _, imp := range imps {
-			pk := s.PkgByPath(imp)
-			if pk != nil && pk.Name != lastElem(imp) {
-				sb.WriteString(fmt.Sprintf("\t%s %q\n", pk.Name, imp))
+			if q := s.qualifier(imp); s.PkgByPath(imp) != nil && q != lastElem(imp) {
+				sb.WriteString(fmt.Sprintf("\t%s %q\n", q, imp))
 			} else {
 				sb.WriteString(fmt.Sprintf("\t%q\n", imp))
 			}
